@@ -885,7 +885,12 @@ class Banana(protocol.Protocol):
                     raise Violation("ABORT received")
                 except Violation:
                     f = BananaFailure()
-                    self.handleViolation(f, "receive-abort")
+                    # an ABORT that arrives while the index tokens of an
+                    # OPEN sequence are still pending abandons that
+                    # sequence, like a token the opener rejects
+                    self.handleViolation(f, "receive-abort",
+                                         inOpen=self.inOpen)
+                    self.inOpen = False
                 continue
 
             elif typebyte == ERROR:
